@@ -74,7 +74,10 @@ Definition ident_ok (s : list N) : bool :=
 (* "dbl" followed by a letter, '_' or '1': where a shift-expression starts the grammar reads it as a
    doubling (finding K1) *)
 Definition dbl_class (s : list N) : bool :=
-  match s with 100 :: 98 :: 108 :: c :: _ => is_alpha_ c || (c =? 49) | _ => false end.
+  match s with
+  | c1 :: c2 :: c3 :: c :: _ => (c1 =? 100) && (c2 =? 98) && (c3 =? 108) && (is_alpha_ c || (c =? 49))
+  | _ => false
+  end.
 (* sh = true where a shift-expression starts (statement root, either operand of an Add);
    false directly under Shift/Double *)
 Fixpoint wf_expr (sh : bool) (e : expr) : bool :=
